@@ -3,6 +3,12 @@ CLAIMED = {
  "C01": ("contract-based deductive verification (own VC generator over go/ssa, SMT)",
          "Function contracts on Branches.Longest, Branch.IsLonger/Add/AtHeight, NewBranch and Repository.ProcessHeader; the repository invariant with R-max (reported tip has maximal accumulated work among all held tips) is a postcondition of ProcessHeader at every return, for all inputs and heap shapes; every obligation is discharged by an SMT solver on each run.",
          "Trusted: math/big as mathematical integers, ConvertToWork >= 1 (axiom), BlockHash uninterpreted, clean()/consolidate assumed to preserve the invariant (trusted contract), sync.Mutex exclusion; int arithmetic mathematical. Save/Load/Clean orchestration and arrival-order independence are not decided.", PROOF),
+ "C02": ("contract-based deductive verification (own VC generator over go/ssa, SMT)",
+         "ProcessHeader's verdict rows for work and bits (undecodable bits refused, hash above target refused, bits must equal the difficulty algorithm's value from height 556767, acceptance implies all of these) are postconditions checked at every return; Branch.Target is verified against a specification of the network's DAA (signed span clamped to [72,288]*600, cap at MaxWork), MedianTimeAndWork against the reference three-compare sorting network (sort.Sort executed as 3-element insertion sort with the real Less/Swap), TimeAndWork against the ancestry function; bitcoin.ConvertToDifficulty (dependency source) is checked for index panics on the full uint32 domain.",
+         "Trusted: arithmetic of ConvertToWork/ConvertToBits and the hash-vs-target comparison are uninterpreted functions shared by code and specification; the reference DAA and sorting network are transcribed from the reference implementation; math/big as mathematical integers; 'every header of the real chain is accepted' is not decided against chain data.", PROOF),
+ "C08": ("contract-based deductive verification (own VC generator over go/ssa, SMT)",
+         "The verdict table of ProcessHeader (bad bits, not enough work, orphan split header, after genesis, unknown parent, already known, split height rules, DAA bits, marked invalid, too deep) is a set of postconditions over the entry state, checked at each of its 18 returns, together with the refusal frame: any error return that is not the post-acceptance notification failure leaves every allocated heap cell unchanged; a duplicate returns nil with the same frame.",
+         "Trusted: Branch lookups are specified by the recursive spec functions findH/anc (their agreement with storage-backed lookups is not decided); clean() assumed to preserve the invariant; the notification-failure return after acceptance is exempted from the frame (it is not a refusal; its reachability is not decided).", PROOF),
  "C19": ("contract-based deductive verification (own VC generator over go/ssa, SMT)",
          "removeDuplicateHashes is verified against 'no element equals its predecessor, first element kept, never longer' with a loop invariant, for slices of any length.",
          "Trusted: Hash32.Equal is value equality. Locator construction (Branch/Repository.GetLocatorHashes) not yet under contract.", PROOF),
